@@ -114,15 +114,17 @@ class CacheRoles:
         T, C = self.table, self.cache
         self.PROBE = [n for n in g.nodes if n.kind == 'load_sub' and self._base(n) == C]
         self.PROBE_GET = [n for n in g.nodes if n.kind == 'call' and self._recv_meth(n) in ((C, 'get'),)]
+        # membership tests `key in TABLE` / `key not in TABLE` are look-ups as well
+        self.MEMBER = [n for n in g.nodes if n.kind == 'branch' and self._member_test(n) is not None]
         self.LOOKUP = [n for n in g.nodes if (n.kind == 'load_sub' and self._base(n) == T)
-                       or (n.kind == 'call' and self._recv_meth(n) == (T, 'get') and not self._is_ownership_read(n))]
+                       or (n.kind == 'call' and self._recv_meth(n) == (T, 'get') and not self._is_ownership_read(n))] + self.MEMBER
         self.MARK = [n for n in g.nodes if n.kind == 'store_sub' and self._base(n) == T]
         self.PUBLISH = [n for n in g.nodes if n.kind == 'store_sub' and self._base(n) == C]
         self.UNMARK = [n for n in g.nodes if (n.kind == 'del_sub' and self._base(n) == T)
                        or (n.kind == 'call' and self._recv_meth(n) == (T, 'pop'))]
         self.TABLE_TOUCH = [n for n in g.nodes if
                             (n.kind in ('load_sub', 'store_sub', 'del_sub') and self._base(n) == T)
-                            or (n.kind == 'call' and (self._recv_meth(n) or (None,))[0] == T)]
+                            or (n.kind == 'call' and (self._recv_meth(n) or (None,))[0] == T)] + self.MEMBER
         self.CALL = [n for n in g.nodes if n.kind == 'await' and isinstance(n.ast.value, ast.Call)  # type: ignore
                      and isinstance(n.ast.value.func, ast.Name) and n.ast.value.func.id == self.wrapped]  # type: ignore
         self.CALL_ANY = [n for n in g.nodes if n.kind == 'call' and isinstance(n.ast.func, ast.Name)  # type: ignore
@@ -132,6 +134,9 @@ class CacheRoles:
         # key variable: the index used at the probes
         keys = set()
         for n in self.PROBE + self.LOOKUP + self.MARK + self.PUBLISH:
+            if n.kind == 'branch':
+                keys.add(norm(n.meta['test'].left))
+                continue
             sl = n.ast.slice if isinstance(n.ast, ast.Subscript) else (n.ast.args[0] if n.ast.args else None)
             keys.add(norm(sl))
         self.key_exprs = keys
@@ -143,6 +148,15 @@ class CacheRoles:
                 if n.kind == 'loop_head' and n.ast is outer:
                     self.HEAD = n
         self.held = held_locks(g, [self.lock])
+
+    def _member_test(self, n: Node) -> Optional[bool]:
+        """True for a branch testing `k in TABLE`, False for `k not in TABLE`, None otherwise."""
+        t = n.meta.get('test')
+        if isinstance(t, ast.Compare) and len(t.ops) == 1 and isinstance(t.ops[0], (ast.In, ast.NotIn)):
+            b = unalias(self.cfg, n, t.comparators[0])
+            if isinstance(b, ast.Name) and b.id == self.table and self._is_closure(b.id):
+                return isinstance(t.ops[0], ast.In)
+        return None
 
     def _is_closure(self, name: str) -> bool:
         bs = self.wrapper.binding_scope(name)
@@ -327,6 +341,8 @@ def lookup_vars(r: CacheRoles) -> Set[str]:
             if n.kind == 'store_name' and n.meta['name'] not in out:
                 st = n.meta.get('stmt')
                 v = st.value if isinstance(st, (ast.Assign, ast.AnnAssign)) else None
+                if v is None and n.meta.get('inlined_param'):
+                    v = n.meta.get('value')      # parameter of an inlined helper bound to a look-up variable
                 if v is not None and not isinstance(v, ast.Call) and any(
                         isinstance(x, ast.Name) and x.id in out for x in ast.walk(v)) and \
                         all(isinstance(x, (ast.Name, ast.Subscript, ast.Constant, ast.Load, ast.Tuple, ast.Index, ast.Attribute))
@@ -381,6 +397,9 @@ def takeover_paths(r: CacheRoles):
         for e in g.succ[n.id]:
             if n.kind == 'load_sub':
                 starts.append((e, e.label != 'exc'))
+            elif n.kind == 'branch':
+                if e.label in ('true', 'false'):
+                    starts.append((e, (e.label == 'true') == r._member_test(n)))
             elif e.label != 'exc':
                 starts.append((e, None))
     stops = ([r.HEAD] if r.HEAD else [])
@@ -556,7 +575,9 @@ def c01(ctx: Ctx) -> None:
         if isinstance(x, ast.Name) and x.id == r.table and r._is_closure(x.id):
             p = parent(x)
             okp = isinstance(p, ast.Subscript) and p.value is x or (
-                isinstance(p, ast.Attribute) and p.value is x)
+                isinstance(p, ast.Attribute) and p.value is x) or (
+                isinstance(p, ast.Compare) and len(p.ops) == 1 and isinstance(p.ops[0], (ast.In, ast.NotIn)) and p.comparators[0] is x
+                and any(m.meta.get('test') is p for m in r.MEMBER))
             if not okp:
                 ctx.undecided('C01-R1', f'table escapes: {norm(p)}', f'{FILE}:{x.lineno}', 'unrecognised use of the table')
     # R2 / R3
